@@ -17,14 +17,14 @@ LEVEL = 'model_checking'
 TECHNIQUE = ('deviation-bounded breadth-first enumeration of renderings (spelling, keyword, connector, separator, direction, '
              'number, block choices) of abstract descriptions in the 4 layouts; reference model = the abstract description')
 LEVEL_TEXT = ('4 layouts x 6 structures (1-3 Twp/Rge groups, 1-3 section groups: single / and-list / range) rendered with every '
-              'combination of <= 2 (quick) / <= 3 (thorough) deviations from the default rendering over 10 rendering dimensions '
+              'combination of <= 2 (quick) / <= 3 (thorough) deviations from the default rendering over 11 rendering dimensions '
               '(10 Twp/Rge spellings, 4 direction mixes, 4 number classes, 3 section-number classes, 8 section keywords, 3 and- and '
-              '6 through-connectors, 3 desc-section connectors, 4 separators, 8 block rotations). The oracle knows the intended '
+              '6 through-connectors, 3 desc-section connectors, 4 separators, 8 block rotations, 5 colon spacings). The oracle knows the intended '
               'tracts, layout and the absence of error flags; the pretty_desc() round trip is a second differential leg.')
 LEVEL_NOTE = ('Trusted: mc/gen.py renderer (its alphabet only contains spellings the repository documents; range "2" only with an '
               'explicit R). Renderings with more deviations than the bound are not explored.')
 RULE = (
-    "state = (layout, structure, partial assignment of the 10 rendering dimensions); transition = deviate one more dimension from "
+    "state = (layout, structure, partial assignment of the 11 rendering dimensions); transition = deviate one more dimension from "
     "its default; states are canonicalised by the rendered text (two derivations that render to the same text are one state); every "
     "state is complete and executed: PLSSDesc(text) and PLSSDesc(pretty_desc). Non-trivial = every distinct text."
 )
@@ -55,7 +55,7 @@ def units(tier):
 
 def space(tier):
     n = gen.count_renderings(MAXDEV[tier])
-    return {'bound': f"<= {MAXDEV[tier]} deviations over 10 rendering dimensions ({n} renderings per layout x structure), "
+    return {'bound': f"<= {MAXDEV[tier]} deviations over 11 rendering dimensions ({n} renderings per layout x structure), "
                      f"{len(gen.LAYOUTS)} layouts x {len(gen.STRUCTS)} structures",
             'caps_hit': []}
 
@@ -116,6 +116,8 @@ def run_unit(unit, tier):
     for level, r in gen.renderings(MAXDEV[tier]):
         if layout in ('TRS_desc', 'S_desc_TR') and r.get('conn'):
             continue    # the desc-section connector does not occur in section-first layouts
+        if layout not in ('TRS_desc', 'S_desc_TR') and r.get('colon'):
+            continue    # ... and the colon does not occur in description-first layouts    # the desc-section connector does not occur in section-first layouts
         acc.transitions += 1
         res = gen.render(layout, struct, r)
         if res is None:
